@@ -2,6 +2,7 @@ use crate::ast;
 use crate::coordinate::TypeAttributeCoordinate;
 use crate::schema;
 use crate::validation::diagnostics::DiagnosticData;
+use crate::validation::variable::is_variable_usage_allowed;
 use crate::validation::DiagnosticList;
 use crate::Node;
 
@@ -23,11 +24,18 @@ fn unsupported_type(
 pub(crate) fn validate_values(
     diagnostics: &mut DiagnosticList,
     schema: &crate::Schema,
-    ty: &Node<ast::Type>,
+    arg_definition: &ast::InputValueDefinition,
     argument: &Node<ast::Argument>,
     var_defs: &[Node<ast::VariableDefinition>],
 ) {
-    value_of_correct_type(diagnostics, schema, ty, &argument.value, var_defs);
+    value_of_correct_type(
+        diagnostics,
+        schema,
+        &arg_definition.ty,
+        arg_definition.default_value.is_some(),
+        &argument.value,
+        var_defs,
+    );
 }
 
 /// Input Object Field Uniqueness
@@ -97,10 +105,14 @@ fn undefined_nested_variables(
     }
 }
 
+/// `ty` is the type expected where `arg_value` is written.
+/// `has_location_default_value` is true if `arg_value` is the value of an argument
+/// or input object field that has a default value.
 pub(crate) fn value_of_correct_type(
     diagnostics: &mut DiagnosticList,
     schema: &crate::Schema,
     ty: &Node<ast::Type>,
+    has_location_default_value: bool,
     arg_value: &Node<ast::Value>,
     var_defs: &[Node<ast::VariableDefinition>],
 ) {
@@ -209,10 +221,10 @@ pub(crate) fn value_of_correct_type(
                     schema::ExtendedType::Scalar(_)
                     | schema::ExtendedType::Enum(_)
                     | schema::ExtendedType::InputObject(_) => {
-                        // we don't have the actual variable values here, so just
-                        // compare if two Types are the same
-                        // TODO(@goto-bus-stop) This should use the is_assignable_to check
-                        if var_def.ty.inner_named_type() != ty.inner_named_type() {
+                        // All Variable Usages Are Allowed: this is also where a variable
+                        // nested in a list or input object literal is checked
+                        // against the type of the list item or input object field
+                        if !is_variable_usage_allowed(var_def, ty, has_location_default_value) {
                             unsupported_type(diagnostics, arg_value, ty);
                         }
                     }
@@ -269,7 +281,8 @@ pub(crate) fn value_of_correct_type(
                 };
                 if type_definition.is_input_type() {
                     for v in li {
-                        value_of_correct_type(diagnostics, schema, &item_type, v, var_defs);
+                        // A list item has no default value
+                        value_of_correct_type(diagnostics, schema, &item_type, false, v, var_defs);
                     }
                 } else {
                     unsupported_type(diagnostics, arg_value, &item_type);
@@ -333,7 +346,15 @@ pub(crate) fn value_of_correct_type(
                     let used_val = obj.iter().find(|(obj_name, ..)| obj_name == input_name);
 
                     if let Some((_, v)) = used_val {
-                        value_of_correct_type(diagnostics, schema, ty, v, var_defs);
+                        let has_default_value = f.default_value.is_some();
+                        value_of_correct_type(
+                            diagnostics,
+                            schema,
+                            ty,
+                            has_default_value,
+                            v,
+                            var_defs,
+                        );
                     }
                 })
             }
